@@ -93,9 +93,9 @@ func decode(r io.Reader, n int) (res result) {
 // scanTokens drives styling.Scan() on a caller-owned bufio.Scanner.
 func scanTokens(r io.Reader, n int) (res result) {
 	s := bufio.NewScanner(r)
-	// the token limit of a caller-owned Scanner is the caller's business: lift
-	// it so that this path judges the split function alone
-	s.Buffer(nil, 1<<30)
+	// default buffer (64 KiB token limit): this path is only used on documents
+	// whose lines are all shorter than that, where a correct split function
+	// never needs more
 	s.Split(styling.Scan())
 	bound := nextBound(n)
 	for {
